@@ -13,3 +13,18 @@ Print Assumptions C10_fix_twice.
 Theorem C10_no_violations_no_change : forall A (l : list A), update l [] = l.
 Proof. reflexivity. Qed.
 Print Assumptions C10_no_violations_no_change.
+
+Require Import Phases PhasesProofs.
+
+(* a rule that cannot repair leaves its report as it was: what it still reports after its "fix" are exactly
+   violations it is unable to repair *)
+Theorem C10_unfixable_fixes_nothing : forall V (line : V -> nat) d r (vs : list V),
+  rfixable r = false -> fixed_violations line d r vs = [].
+Proof. intros V. exact (@unfixable_fixes_nothing V). Qed.
+Print Assumptions C10_unfixable_fixes_nothing.
+
+(* the second fix is offered exactly the violations the first one was offered *)
+Theorem C10_fix_selection_idempotent : forall V (line : V -> nat) d r (vs : list V),
+  fixed_violations line d r (fixed_violations line d r vs) = fixed_violations line d r vs.
+Proof. intros V. exact (@fix_selection_idempotent V). Qed.
+Print Assumptions C10_fix_selection_idempotent.
